@@ -111,9 +111,15 @@ def make_component(na, nd, ns, mx, name='comp'):
     inputs = [Variable(f'x{k}', distribution='U(0, 1)') for k in range(nd)] or [Variable('x0', distribution='U(0, 1)')]
     outputs = [Variable(f'y_{name}')]
 
+    fail = {'on': False}
+
     def model(inputs, model_fidelity=None):
+        if fail['on']:            # a vectorised model that raises: the exception propagates out of activate_index
+            fail['on'] = False
+            raise RuntimeError('model failure injected by the harness')
         first = next(iter(inputs.values()))
         return {f'y_{name}': np.ones(np.shape(np.atleast_1d(first)))}
+    model.fail = fail
     kw = {}
     if na:
         kw['model_fidelity'] = tuple(mx[:na])
@@ -150,7 +156,21 @@ def impl_trace(case):
         comp.clear()
         comp.training_data.clear()
     snaps = []
-    for r in reqs:
+    case['_fail_snaps'] = []
+    for k, r in enumerate(reqs):
+        if k in case.get('fail_at', ()):
+            # the model raises during this request; the caller catches the exception: the state in between is a point of the history too
+            # (index sets and weights move only after all data is stored); then the request is repeated and must behave as usual
+            comp.model.fail['on'] = True
+            try:
+                comp.activate_index(tuple(r[:na]), tuple(r[na:]))
+                raised = False
+            except RuntimeError:
+                raised = True
+            comp.model.fail['on'] = False
+            case['_fail_snaps'].append((k, raised, snapshot(comp)))
+            if not raised:
+                snaps.append(snapshot(comp)); continue       # the request needed no model call (it was ignored): nothing to repeat
         try:
             comp.activate_index(tuple(r[:na]), tuple(r[na:]))
         except Exception as e:   # an activation request must never raise; the case ends here
@@ -262,7 +282,10 @@ def gen_cases(ctx: Ctx):
         mx = tuple(min(m, 2) if na <= k < na + nd else m for k, m in enumerate(mx))
         reqs = random_history(rng, mx, rng.randint(1, ctx.pick(14, 24)))
         c = {'na': na, 'nd': nd, 'ns': ns, 'mx': list(mx), 'reqs': [list(r) for r in reqs], 'kind': 'random'}
-        if rng.random() < 0.25:
+        if rng.random() < 0.3:
+            c['fail_at'] = sorted(rng.sample(range(len(reqs)), min(len(reqs), rng.randint(1, 2))))
+            c['kind'] = 'random-with-failing-model'
+        elif rng.random() < 0.25:
             c['prefix_then_clear'] = [list(r) for r in random_history(rng, mx, rng.randint(1, 6), p_bad=0.0)]
             c['kind'] = 'random-after-clear'
         cases.append(c)
@@ -311,7 +334,19 @@ def run(ctx: Ctx, which: str):
             for e in errs:
                 ctx.violate(f'{which}:{e.split(":")[0][:40]}', e, {**c, 'after_request': k})
             prev = snap
-        ctx.case({k: c[k] for k in ('na', 'nd', 'ns', 'mx', 'reqs', 'prefix_then_clear') if k in c}, nontrivial=nacc >= 2, kind=c['kind'])
+        # states left behind by an activation whose model raised: same invariants, and (C01) weights = inclusion-exclusion
+        for k, raised, fsnap in c.pop('_fail_snaps', []):
+            if not raised:
+                continue
+            act = set(tuple(t) for t in fsnap['active']); cand = set(tuple(t) for t in fsnap['cand'])
+            if which == 'C02':
+                if not is_dc(act) or act & cand or (act and cand != set(margin(act, mx))) or (not act and cand):
+                    ctx.violate('C02:invariants-after-failed-activation', f'after activate_index({c["reqs"][k]}) was aborted by a model exception: active '
+                                f'{sorted(act)}, candidates {sorted(cand)}, admissible margin {sorted(margin(act, mx)) if act else []}', {**c, 'after_request': k})
+            else:
+                for e in oracle_c01(fsnap):
+                    ctx.violate(f'C01:{e.split(":")[0][:40]}', 'after an activation aborted by a model exception: ' + e, {**c, 'after_request': k})
+        ctx.case({k: c[k] for k in ('na', 'nd', 'ns', 'mx', 'reqs', 'prefix_then_clear', 'fail_at') if k in c}, nontrivial=nacc >= 2, kind=c['kind'])
         ctx.count(f'dims={len(mx)}')
         ctx.count('requests', len(c['reqs'])); ctx.count('accepted', nacc)
         if snaps and 'raised' in snaps[-1]:
